@@ -292,8 +292,22 @@ def destdir(ctx, F):
             blocks.append(n)
     ctx.ob(R, 'BasePath.realize|destdir-prefix', bool(blocks), rz.node,
            'DESTDIR is not prepended to destdir paths')
+    # the local(s) the DESTDIR block rewrites (the root of the path)
+    rooted = set()
+    for b in blocks:
+        for s_ in ast.walk(b):
+            if isinstance(s_, (ast.Assign, ast.AugAssign)) and lookup(
+                    F.atoms(s_.value, rz)):
+                tg = s_.targets if isinstance(s_, ast.Assign) else [
+                    s_.target]
+                rooted |= {x.id for t_ in tg for x in ast.walk(t_)
+                           if isinstance(x, ast.Name)}
     for r in Q.returns(rz.node):
-        if r.value is None or not lookup(F.atoms(r.value, rz)):
+        if r.value is None:
+            continue
+        uses_root = any(isinstance(x, ast.Name) and x.id in rooted
+                        for x in ast.walk(r.value))
+        if not uses_root and not lookup(F.atoms(r.value, rz)):
             continue
         ok = any(g.dominates(b, r) for b in blocks)
         ctx.ob(R, 'BasePath.realize|destdir-before-return', ok, r,
